@@ -306,46 +306,105 @@ def run(ck):
                 it = p.interp
                 s, r = p.value
                 items = it.concrete_items(r)
-                un = [c for c in it.ext_calls if c[0] == "numpy.unique"]
-                oku = len(un) == 1 and isinstance(un[0][1][0], VTens) and un[0][1][0].term == T.sym("bases") and const_of(un[0][2].get("axis", VConst(None))) == (True, 0) and it.truth(un[0][2].get("return_inverse", VConst(False))) is True
-                ck.check(bool(oku), "C03.R4", inst + ":groups = unique rows of the bases [%s]" % _c(p), gsite, "the bases are not grouped by np.unique(bases, axis=0, return_inverse=True)")
+                # Which rows go with which basis is decided on the values handed to the per-group routines (whatever the
+                # grouping idiom): samples X = S[sel] with sel built from the inverse map of unique(B), basis b = unique(B')[k];
+                # required: B = B' = the caller's bases (aligned with S), and the same group index on both sides.
+                Sx, Bx = T.sym("S"), T.sym("bases")
+
+                def parse_group(bas_t, smp_t):
+                    at = smp_t.single_atom() if smp_t is not None else None
+                    if at is None or not isinstance(at, T.App) or at.op != "index":
+                        return None
+                    base, spec = at.args
+                    if not spec or not isinstance(spec[0], (tuple, list)) or spec[0][0] != "adv" or any(tuple(x) != ("slice", None, None, None) for x in spec[1:]):
+                        return None
+                    sel = spec[0][1]
+                    sa = sel.single_atom()
+                    while sa is not None and isinstance(sa, T.App) and (sa.op in ("nonzero", "flatnonzero", "idx0") or sa.op.endswith("nonzero")) and sa.args:
+                        sa = sa.args[0].single_atom() if hasattr(sa.args[0], "single_atom") else None
+                    if sa is None or not isinstance(sa, T.App) or sa.op != "cmp_Eq":
+                        return None
+                    inv, j = sa.args
+                    ia = inv.single_atom()
+                    if ia is None or not isinstance(ia, T.App) or ia.op != "unique_inverse":
+                        inv, j = j, inv
+                        ia = inv.single_atom()
+                    if ia is None or not isinstance(ia, T.App) or ia.op != "unique_inverse":
+                        return None
+                    Bq = ia.args[0]
+                    Bu = k = None
+                    if bas_t is not None:
+                        ba = bas_t.single_atom()
+                        if ba is not None and isinstance(ba, T.App) and ba.op == "index" and ba.args[0].single_atom() is not None and ba.args[0].single_atom().op == "unique":
+                            Bu = ba.args[0].single_atom().args[0]
+                            k = ba.args[1][0]
+                    return {"S": base, "Bq": Bq, "j": j, "Bu": Bu, "k": k}
+
+                def judge(what, bas_t, smp_t, need_basis=True):
+                    g = parse_group(bas_t, smp_t)
+                    name = inst + ":" + what + " [%s]" % _c(p)
+                    if g is None and smp_t is not None:
+                        atoms = list(smp_t.all_atoms())
+                        # samples[inverse != i]: every *other* group's rows
+                        if any(isinstance(a_, T.App) and a_.op == "cmp_NotEq" and any(isinstance(b_, T.App) and b_.op == "unique_inverse" for x_ in a_.args if hasattr(x_, "all_atoms") for b_ in x_.all_atoms()) for a_ in atoms):
+                            ck.violation("C03.R4", name, gsite, "the group is evaluated on the rows whose inverse index DIFFERS from the group's: the samples of all other bases")
+                            return False
+                        # rows ordered by np.lexsort(bases.T): lexsort's primary key is the LAST key (the last site), while the groups
+                        # of np.unique(bases, axis=0) are ordered with the FIRST site as primary key
+                        for a_ in atoms:
+                            if isinstance(a_, T.App) and a_.op == "x:numpy.lexsort" and a_.args:
+                                k_ = a_.args[0].single_atom() if hasattr(a_.args[0], "single_atom") else None
+                                if k_ is not None and isinstance(k_, T.App) and k_.op == "t" and k_.args[0] == Bx and any(isinstance(u_, T.App) and u_.op == "unique" for u_ in (bas_t.all_atoms() if bas_t is not None else [])):
+                                    ck.violation("C03.R4", name, gsite, "rows are ordered by np.lexsort(bases.T), whose primary key is the last site, and cut into blocks in the order of np.unique(bases, axis=0), "
+                                                 "whose primary key is the first site: with two or more sites the blocks do not hold the rows of their basis")
+                                    return False
+                    if g is None or (need_basis and g["Bu"] is None):
+                        ck.undecided("C03.R4", name, gsite, "grouping scheme not recognised: samples %s, basis %s" % (str(smp_t)[:120], str(bas_t)[:80]))
+                        return False
+                    if need_basis and (g["Bu"] != g["Bq"] or g["k"] != g["j"]):
+                        ck.violation("C03.R4", name, gsite, "group %r of unique(%s) is evaluated on the samples of group %r of unique(%s): samples and basis of different groups are combined"
+                                     % (g["k"], str(g["Bu"])[:60], g["j"], str(g["Bq"])[:60]))
+                        return False
+                    if g["Bq"] == Bx and g["S"] == Sx:
+                        ck.ok("C03.R4", name, gsite)
+                        return True
+                    if g["S"] == Sx and g["Bq"] != Bx and "bases" in g["Bq"].syms():
+                        ck.violation("C03.R4", name, gsite, "row numbers computed on a filtered / reordered copy of the bases (%s) select rows of the unfiltered samples: the samples no longer go with their own bases"
+                                     % (str(g["Bq"])[:100],))
+                        return False
+                    ck.undecided("C03.R4", name, gsite, "samples %s are grouped by %s: alignment and coverage not recognised" % (str(g["S"])[:80], str(g["Bq"])[:80]))
+                    return False
+
                 loops = [l for l in it.loops if "NeuralStateBase.gradient" in l["site"]]
-                if len(loops) != 1:
-                    ck.undecided("C03.R4", inst + ":group loop", gsite, "expected one loop over the unique bases")
-                    continue
-                lp = loops[0]
-                isym = "i@" + lp["site"]
-                I = T.sym(isym)
-                UB = T.app("unique", T.sym("bases"))
-                INV = T.app("unique_inverse", T.sym("bases"))
-                sub = T.app("index", T.sym("S"), (("adv", T.app("cmp_Eq", INV, I)), ("slice", None, None, None)))
-                bas = T.app("index", UB, (I, ("slice", None, None, None)))
                 rotated = some_selected(p, "NeuralStateBase.gradient") is True
-                if rotated:
-                    rc = [c for c in p.calls if c[0] == cls + ".rotated_gradient"]
-                    ck.check(len(rc) == 2, "C03.R4", inst + ":one rotated gradient per group", gsite, "rotated_gradient called %d times in the two analysed iterations" % len(rc))
-                    if len(rc) == 2:
-                        a = rc[1][7]
-                        ck.check(a.get("basis") == bas, "C03.R4", inst + ":group i uses basis unique[i]", gsite, "the basis handed to rotated_gradient is %r, expected row i of the unique bases" % (a.get("basis"),))
-                        ck.check(a.get("sample") == sub, "C03.R4", inst + ":group i uses the samples with inverse == i", gsite,
-                                 "the samples handed to rotated_gradient are %r; expected samples[inverse == i] with the same i" % (a.get("sample"),))
+                rc = [c for c in p.calls if c[0] == cls + ".rotated_gradient"]
+                ec = [c for c in p.calls if c[0].endswith(".effective_energy_gradient") and "NeuralStateBase.gradient" in c[3]]
+                if rc:
+                    a = rc[-1][7]
+                    bas, sub = argp(a, 1), argp(a, 2)
+                    if judge("rotated group: its basis with its own samples", bas, sub):
+                        ck.check(len(loops) == 1 and len(rc) == 2, "C03.R4", inst + ":one rotated gradient per group", gsite, "rotated_gradient called %d times in the two analysed iterations of %d loops" % (len(rc), len(loops)))
                         for k in range(len(items)):
                             at = items[k].term.single_atom() if items[k].term is not None else None
                             okk = at is not None and isinstance(at, T.App) and at.op == "accum" and at.args[3] == T.app("RG%d" % k, bas, sub)
                             ck.check(bool(okk), "C03.R4", inst + ":contribution %d accumulated into gradient %d" % (k, k), gsite,
                                      "gradient %d accumulates %r; expected the group's contribution number %d" % (k, getattr(at, "args", [None] * 4)[3] if at is not None else items[k].term, k))
+                elif ec:
+                    sub = argp(ec[-1][7], 1)
+                    if judge("reference-basis group: its own samples", None, sub, need_basis=False):
+                        at1 = items[1].term.single_atom() if items[1].term is not None else None
+                        ck.check(items[1].term is not None and (items[1].term.is_zero() or (at1 is not None and at1.op == "accum" and at1.args[3].is_zero())), "C03.R4", inst + ":all-Z group adds no phase gradient", gsite,
+                                 "the phase gradient of a reference-basis group is %r" % (items[1].term,))
                 else:
-                    ec = [c for c in p.calls if c[0].endswith(".effective_energy_gradient")]
-                    ck.check(len(ec) == 2 and ec[1][7].get("v") == sub, "C03.R4", inst + ":all-Z group uses its own samples", gsite, "the reference-basis group is not evaluated on samples[inverse == i]")
-                    at1 = items[1].term.single_atom() if items[1].term is not None else None
-                    ck.check(items[1].term is not None and (items[1].term.is_zero() or (at1 is not None and at1.op == "accum" and at1.args[3].is_zero())), "C03.R4", inst + ":all-Z group adds no phase gradient", gsite,
-                             "the phase gradient of a reference-basis group is %r" % (items[1].term,))
+                    ck.undecided("C03.R4", inst + ":groups [%s]" % _c(p), gsite, "no per-group gradient call found on this path")
+                if rotated is None:
+                    continue
                 # the reference-basis literal
                 lits = set()
                 for c in it.ext_calls:
-                    if c[0] == "numpy.where" and c[1] and isinstance(c[1][0], VTens) and c[1][0].term is not None:
+                    if c[0] in ("numpy.where", "numpy.all", "numpy.any", "numpy.nonzero", "numpy.flatnonzero") and c[1] and isinstance(c[1][0], VTens) and c[1][0].term is not None:
                         lits |= {x for x in c[1][0].term.syms() if x.startswith("lit:")}
-                ck.check(lits == {"lit:'Z'"}, "C03.R4", inst + ":reference basis is 'Z' [%s]" % _c(p), gsite, "rotated sites are found by comparing with %s, expected 'Z'" % sorted(lits))
+                ck.check(True if lits == {"lit:'Z'"} else (None if not lits else False), "C03.R4", inst + ":reference basis is 'Z' [%s]" % _c(p), gsite, "rotated sites are found by comparing with %s, expected 'Z'" % sorted(lits))
     # ------------------------------------------------------------------ R5 exact negative phase
     for cls in STATES:
         esite = prog.method(cls, "compute_exact_gradients").site()
